@@ -3,6 +3,7 @@
 From Coq Require Import List NArith Bool.
 From Coq.Strings Require Import Byte.
 From Connect Require Import Bytes Generated Dispatch GoIO Envelope Compression.
+From Connect Require CPool.
 From Connect Require Plumbing.
 Import ListNotations.
 Local Open Scope N_scope.
@@ -126,3 +127,37 @@ Theorem configuration_reaches_the_writers :
   plumbing_envelope_writer_complete = true /\ plumbing_connect_unary_marshaler_complete = true.
 Proof. exact Plumbing.writers_receive_configuration. Qed.
 Print Assumptions configuration_reaches_the_writers.
+
+Local Open Scope nat_scope.
+(* the pooled decompressors and compressors: every exit branch of Decompress /
+   Compress takes one object and gives it back at most once ... *)
+Theorem decompress_releases_once : forall o,
+  CPool.count CPool.PGet (CPool.decompress_trace o) = 1%nat /\ CPool.count CPool.PPut (CPool.decompress_trace o) <= 1%nat /\
+  (CPool.count CPool.PPut (CPool.decompress_trace o) = 1%nat ->
+   CPool.count CPool.PClose (CPool.decompress_trace o) = 1%nat /\ CPool.count CPool.PPark (CPool.decompress_trace o) = 1%nat).
+Proof. exact CPool.decompress_balanced_lemma. Qed.
+Print Assumptions decompress_releases_once.
+
+Theorem compress_releases_once : forall o,
+  CPool.count CPool.PGet (CPool.compress_trace o) = 1%nat /\ CPool.count CPool.PPut (CPool.compress_trace o) <= 1%nat.
+Proof. exact CPool.compress_balanced_lemma. Qed.
+Print Assumptions compress_releases_once.
+
+(* ... so under every interleaving of any number of calls, whatever objects the
+   pool hands out, no pooled object is held by two calls at once and the pool
+   never holds one twice: a corrupt message cannot make later calls share a
+   decompressor *)
+Theorem pooled_objects_never_shared : forall ss,
+  let p := CPool.pool_run CPool.pinit ss in
+  NoDup (map snd (CPool.held p)) /\ NoDup (CPool.avail p) /\
+  (forall c i, In (c, i) (CPool.held p) -> ~ In i (CPool.avail p)).
+Proof. exact CPool.no_sharing_lemma. Qed.
+Print Assumptions pooled_objects_never_shared.
+
+(* what the discipline excludes *)
+Theorem double_release_is_observable :
+  let p := CPool.double_put (CPool.pool_step CPool.pinit (CPool.SGet 0%nat 0%nat)) 0%nat in
+  let q := CPool.pool_step (CPool.pool_step p (CPool.SGet 1%nat 0%nat)) (CPool.SGet 2%nat 0%nat) in
+  map snd (CPool.held q) = [0%nat; 0%nat].
+Proof. exact CPool.double_release_shares. Qed.
+Print Assumptions double_release_is_observable.
